@@ -52,6 +52,14 @@ def msChgStatus (s : MocSet) (newStatus : Nat) (ids : List Nat) : MsRes :=
 def msPurge (s : MocSet) (n128 : Option Nat) : MsRes :=
   ({ n128 := max (n128.getD 1) s.n128, entries := s.entries.filter (·.status > 1) }, true)
 
+/-- The command line: an identifier is stored on 48 bits (`check_id`, called by `make` and — repaired — by `append`), and
+    `void` (0) is the end-of-list marker, not a status (repaired: refused when the arguments are parsed).  Such a command
+    is refused before the file is touched. -/
+def idMask : Nat := 2 ^ 48 - 1
+def msAppendCmd (s : MocSet) (e : MsEntry) : MsRes := if e.id > idMask then (s, false) else msAppend s e
+def msChgStatusCmd (s : MocSet) (newStatus : Nat) (ids : List Nat) : MsRes :=
+  if newStatus = 0 then (s, false) else msChgStatus s newStatus ids
+
 /-- Rows of `mocset list`: `(id, status, depth, n_ranges, byte_size)`. -/
 def msList (s : MocSet) : List (Nat × Nat × Nat × Nat × Nat) :=
   s.entries.map fun e => (e.id, e.status, e.depth, e.ranges.length, e.byteSize)
